@@ -6,7 +6,7 @@ namespace Gen.C12
 
 def checkRoundPrecision  : Rat := (2 : Rat)
 
-def roundCmp (roundedA roundedB : Rat) : Rat := (roundedA - roundedB)
+def roundCmp (round : Rat → Rat → Rat) (a b precision : Rat) : Rat := (round (a - b) precision)
 
 def notSelected (inW : Bool) : Bool := (!inW)
 
